@@ -94,9 +94,26 @@ def shard_nodes(r, count):
         base = src
         if r.random() < 0.5:
             base = Node('map', (('FAdd', r.randint(1, 3)),), [base])
-        if r.random() < 0.3:
+        w = r.random()
+        m = n
+        if w < 0.25:
             base = Node('get', (('slice', None, None, r.choice([2, -1])),), [base])
-        k = r.randint(-1, n + 2)
+            m = len(range(n)[::base.a[0][3]])
+        elif w < 0.45 and keyed and n:
+            # the dataset being sharded is itself a selection by example keys / by positions / a sorted or concatenated one
+            sel = r.sample(gen_a.KEYS[:n], r.randint(1, n))
+            base = Node('get', (('keys', tuple(sel), r.choice(['list', 'tuple'])),), [base])
+            m = len(sel)
+        elif w < 0.6 and n:
+            idx = [r.randrange(n) for _ in range(r.randint(1, n + 1))]
+            base = Node('get', (('ints', tuple(idx), r.choice(['list', 'array'])),), [base])
+            m = len(idx)
+        elif w < 0.7:
+            base = Node('sort', (('FKeyInt',), r.random() < 0.5), [base])
+        elif w < 0.8 and not keyed:
+            base = Node('concat', (), [base, Node('list', (tuple(range(3)), 'pickle'))])
+            m = n + 3
+        k = r.randint(-1, m + 2)
         out.append(Node('shard', (k, r.randint(-k - 1, k + 1) if k > 0 else 0), [base]))
     return out
 
